@@ -135,14 +135,6 @@ Fold(b, calls) == IF calls = <<>> THEN b ELSE Fold(Step(b, Head(calls)), Tail(ca
 RECURSIVE RaiseSeq(_, _)
 RaiseSeq(b, calls) == IF calls = <<>> THEN <<>> ELSE <<Raises(b, Head(calls))>> \o RaiseSeq(Step(b, Head(calls)), Tail(calls))
 
-\* exceptions raised by rendering a state (dialects with the generic ON CONFLICT renderer)
-RenderRaises(b, d) ==
-    IF b.oc /\ b.upd = "" /\ d # "mysql"
-       /\ (b.sel # <<>> \/ b.ins # "" \/ b.del) /\ (b.ins # "" => (b.sel # <<>> \/ b.vals # <<>>)) THEN
-        (IF ~b.ocnothing /\ b.ocupd = <<>> THEN (IF b.ocf = <<>> THEN "" ELSE "QueryException")
-         ELSE IF b.ocupd # <<>> /\ b.ocf = <<>> THEN "QueryException" ELSE "")
-    ELSE ""
-
 (***************************************************************************)
 (* What the state denotes                                                   *)
 (***************************************************************************)
@@ -154,6 +146,14 @@ Complete(b) == /\ (b.sel # <<>> \/ b.ins # "" \/ b.del \/ b.upd # "")
                /\ (b.ins # "" => (b.sel # <<>> \/ b.vals # <<>>))
                /\ (b.upd # "" => b.sets # <<>>)
                /\ ((b.del /\ b.upd = "") => b.from # <<>>)     \* DELETE needs its FROM (the code renders "DELETE WHERE ..." without it)
+
+\* exceptions raised by rendering a state (dialects with the generic ON CONFLICT renderer): an incomplete state renders "" before
+\* the conflict clause is looked at
+RenderRaises(b, d) ==
+    IF b.oc /\ b.upd = "" /\ d # "mysql" /\ Complete(b) THEN
+        (IF ~b.ocnothing /\ b.ocupd = <<>> THEN (IF b.ocf = <<>> THEN "" ELSE "QueryException")
+         ELSE IF b.ocupd # <<>> /\ b.ocf = <<>> THEN "QueryException" ELSE "")
+    ELSE ""
 
 HasSubqFrom(b) == b.from # <<>> /\ SrcTab(b.from[1]).kind = "subq"
 \* WHERE / PREWHERE mention a table that is not one of the statement's own sources (decided against the CURRENT
